@@ -57,7 +57,7 @@ func init() {
 	core.Register(&core.Prop{
 		ID:    "C19",
 		Level: "exploration",
-		Rule: "repository URL forms (scheme, port, explicit default port, host case, path, query) × chart URL forms as written in index.yaml (relative, absolute same origin, default-port / host-case respellings, other scheme / host / sub- / super-domain / suffix / prefix host / port / IP, userinfo, fragment and query tricks, scheme-relative, trailing dot, redirects of chart and index to an unrelated domain), with/without pass-credentials, optionally a second configured repository on the chart's host listing the same URL; per pair the nonce credentials are configured for the repository and the pair runs through HTTPGetter.Get, ChartRepository.DownloadIndexFile, ChartDownloader.DownloadTo (repo/chart ref, absolute URL), ChartPathOptions.LocateChart --repo, action.Pull (--repo and repo/chart), Manager.Update and Manager.Build. " +
+		Rule: "repository URL forms (scheme, port, explicit default port, host case, path, query) × chart URL forms as written in index.yaml (relative, absolute same origin, default-port / host-case respellings, other scheme / host / sub- / super-domain / suffix / prefix host / port / IP, userinfo, fragment and query tricks, scheme-relative, trailing dot, redirects of chart and index to an unrelated domain), with/without pass-credentials, optionally a second configured repository listing the same URL (credential-less on the chart's host, or with its own credentials and pass-credentials off on an unrelated host while the first repository / the caller has pass-credentials on); per pair the nonce credentials are configured for the repository and the pair runs through HTTPGetter.Get, ChartRepository.DownloadIndexFile, ChartDownloader.DownloadTo (repo/chart ref, absolute URL), ChartPathOptions.LocateChart --repo, action.Pull (--repo and repo/chart), Manager.Update and Manager.Build. " +
 			"distinct_nontrivial counts (entry point, URL-difference class, pass-credentials, cross-origin request observed, credentials observed) tuples with at least one request captured.",
 		Assumptions: []string{
 			"net/http honours HTTP_PROXY/HTTPS_PROXY for the made-up host names, so the proxy sees every request helm sends (checked: per entry point the share of runs with captured requests)",
@@ -204,6 +204,12 @@ type pairSpec struct {
 	Alias     bool
 	User      string
 	Pass      string
+	// Mirror: URL of a second configured repository on an unrelated origin that has its OWN
+	// credentials (User2/Pass2) and pass-credentials off, is listed first and whose index lists the
+	// same absolute chart url.
+	Mirror string
+	User2  string
+	Pass2  string
 }
 
 func genPair(k int, rng *rand.Rand) pairSpec {
@@ -221,6 +227,17 @@ func genPair(k int, rng *rand.Rand) pairSpec {
 			if o2, _ := originOfURL(r); o1 != o2 {
 				ps.Sibling = cu.Scheme + "://" + cu.Host + "/mirror"
 				ps.Diff += "+second-repo-lists-url"
+			}
+		}
+	}
+	if cu, err := url.Parse(ps.ChartRef); err == nil && cu.IsAbs() && cu.Host != "" && ps.Sibling == "" && rng.Intn(3) == 0 {
+		if o1, ok1 := originOfURL(ps.ChartRef); ok1 {
+			if o2, _ := originOfURL(r); o1 != o2 {
+				ps.Mirror = u.Scheme + "://mirror.corp.test/charts"
+				n2 := fmt.Sprintf("%08x", rng.Uint32())
+				ps.User2, ps.Pass2 = "mirror-"+n2, "mpw-"+n2+"-secret"
+				ps.PassCreds = rng.Intn(2) == 0
+				ps.Diff += "+credentialed-second-repo-lists-url"
 			}
 		}
 	}
@@ -364,6 +381,9 @@ func (x *exec) describe() string {
 	if x.ps.Sibling != "" {
 		s += fmt.Sprintf(" second configured repository %q (no credentials) lists the same url", x.ps.Sibling)
 	}
+	if x.ps.Mirror != "" {
+		s += fmt.Sprintf(" second configured repository %q (listed first, own credentials %s:%s, pass-credentials=false) lists the same url", x.ps.Mirror, x.ps.User2, x.ps.Pass2)
+	}
 	return s
 }
 
@@ -416,6 +436,15 @@ func (x *exec) step(ep string, f func() error) {
 			res.Stat("requests_with_credentials", 1)
 			if !foreign {
 				res.Stat("requests_with_credentials_same_origin", 1)
+			}
+		}
+		if x.ps.Mirror != "" && carries(r.Auth, x.ps.Pass2) {
+			// the second repository's credentials: configured for its origin, pass-credentials off
+			res.Stat("requests_with_second_repository_credentials", 1)
+			if mo, _ := originOfURL(x.ps.Mirror); !ok || o != mo {
+				res.Add("credentials-sent-to-foreign-origin", fmt.Sprintf("%s · credentials of a second configured repository (pass-credentials off) sent to another origin · %s request", ep, reqKind(r)),
+					"%s %s carried the credentials of the second repository; request origin %s, that repository's origin %s | %s | entry point %s returned err=%v",
+					r.Method, r.URL(), o, mo, x.describe(), ep, err)
 			}
 		}
 		if has && foreign {
@@ -526,6 +555,10 @@ func (x *exec) runPair(chartArchive []byte) {
 	entry := &repo.Entry{Name: "myrepo", URL: ps.RepoURL, Username: ps.User, Password: ps.Pass, PassCredentialsAll: ps.PassCreds, CAFile: x.ca}
 	rf := repo.NewFile()
 	var sib *repo.Entry
+	if ps.Mirror != "" {
+		sib = &repo.Entry{Name: "pubmirror", URL: ps.Mirror, Username: ps.User2, Password: ps.Pass2, CAFile: x.ca}
+		rf.Add(sib)
+	}
 	if ps.Sibling != "" {
 		sib = &repo.Entry{Name: "pubmirror", URL: ps.Sibling, CAFile: x.ca}
 		rf.Add(sib)
@@ -600,6 +633,19 @@ func (x *exec) runPair(chartArchive []byte) {
 			dl := downloader.ChartDownloader{Out: io.Discard, Verify: downloader.VerifyLater, Getters: httpGetters(), RepositoryConfig: repoCfg, RepositoryCache: cache,
 				Options: []getter.Option{getter.WithTLSClientConfig("", "", x.ca)}}
 			dest := filepath.Join(x.dir, "d2")
+			os.MkdirAll(dest, 0o755)
+			_, _, err := dl.DownloadTo(resolved, "", dest)
+			return err
+		})
+	}
+	if rerr == nil && ps.Mirror != "" {
+		// `helm pull <absolute url> --username --password --pass-credentials`: the caller's own
+		// (unchecked) credentials with pass-credentials on; the owning repository's credentials
+		// replace them and must stay scoped to that repository.
+		x.step("DownloadTo(absolute-url, caller --pass-credentials)", func() error {
+			dl := downloader.ChartDownloader{Out: io.Discard, Verify: downloader.VerifyLater, Getters: httpGetters(), RepositoryConfig: repoCfg, RepositoryCache: cache,
+				Options: []getter.Option{getter.WithTLSClientConfig("", "", x.ca), getter.WithBasicAuth("caller", "caller-own-password"), getter.WithPassCredentialsAll(true)}}
+			dest := filepath.Join(x.dir, "d2b")
 			os.MkdirAll(dest, 0o755)
 			_, _, err := dl.DownloadTo(resolved, "", dest)
 			return err
